@@ -283,7 +283,107 @@ def gen_C20():
     ]
 
 
-GENERATORS = {"C06": gen_C06, "C07": gen_C07, "C14": gen_C14, "C20": gen_C20}
+def fstring_components(node, env, suffix=""):
+    """an f-string key template -> Lean list of path components (split at '/' at translation time)"""
+    if isinstance(node, ast.Constant) and isinstance(node.value, str):
+        parts = [("lit", node.value)]
+    elif isinstance(node, ast.JoinedStr):
+        parts = []
+        for v in node.values:
+            if isinstance(v, ast.Constant):
+                parts.append(("lit", v.value))
+            elif isinstance(v, ast.FormattedValue) and v.format_spec is None and v.conversion == -1:
+                t = ast.unparse(v.value)
+                if t not in env:
+                    raise TranslateError(f"key template uses {t}")
+                parts.append(("var", env[t]))
+            else:
+                raise TranslateError("key template: unsupported formatted value")
+    else:
+        raise TranslateError("key template is not a string")
+    if suffix:
+        parts.append(("lit", suffix))
+    comps, cur = [], []
+    for kind, v in parts:
+        if kind == "var":
+            cur.append(v)
+        else:
+            segs = v.split("/")
+            for i, sg in enumerate(segs):
+                if i > 0:
+                    comps.append(cur)
+                    cur = []
+                if sg:
+                    cur.append('"' + sg.replace('"', '\\"') + '"')
+    comps.append(cur)
+    return "[" + ", ".join(" ++ ".join(c) if c else '""' for c in comps) + "]"
+
+
+def _assigned_in(fn, name, nth=0):
+    found = [n for n in ast.walk(fn) if isinstance(n, ast.Assign) and len(n.targets) == 1 and ast.unparse(n.targets[0]) == name]
+    found.sort(key=lambda n: n.lineno)
+    if len(found) <= nth:
+        raise TranslateError(f"assignment #{nth} to {name} not found in {fn.name}")
+    return found[nth].value
+
+
+def gen_C18():
+    out = []
+    env = {"S3_FILE_PATH": "root", "election_id": "eid", "office": "office", "self.geographic_unit_type": "utype",
+           "geographic_unit_type": "utype", "key": "table", "estimand": "est", "aggregate_string": "lvl", "alpha": "alpha"}
+    P4 = [("root", "String"), ("eid", "String"), ("office", "String"), ("utype", "String")]
+    src, tree = _parse("handlers/data/CombinedData.py")
+    fn = _find(tree, "CombinedDataHandler", "write_data")
+    out.append(lean_def("live_key", P4, "List String", "  " + fstring_components(_assigned_in(fn, "path", 0), env)))
+    out.append(lean_def("live_counties_key", P4, "List String", "  " + fstring_components(_assigned_in(fn, "path", 1), env)))
+    src, tree = _parse("handlers/data/ModelResults.py")
+    fn = _find(tree, "ModelResultsHandler", "write_data")
+    out.append(lean_def("prediction_key", P4 + [("table", "String")], "List String",
+                        "  " + fstring_components(_assigned_in(fn, "path", 0), env)))
+    src, tree = _parse("distributions/GaussianModel.py")
+    P7 = P4 + [("est", "String"), ("lvl", "String"), ("alpha", "String")]
+    fn = _find(tree, "GaussianModel", "_write_conformalization_data")
+    out.append(lean_def("gauss_conf_key", P7, "List String", "  " + fstring_components(_assigned_in(fn, "path", 0), env, ".csv")))
+    fn = _find(tree, "GaussianModel", "_write_gaussian_bounds")
+    out.append(lean_def("gauss_bounds_key", P7, "List String", "  " + fstring_components(_assigned_in(fn, "path", 0), env, ".csv")))
+    # the guard of the gaussian writes
+    fn = _find(tree, "GaussianModel", "fit")
+    guards = [n for n in ast.walk(fn) if isinstance(n, ast.If) and "_write_conformalization_data" in ast.unparse(n)]
+    if len(guards) != 1:
+        raise TranslateError("GaussianModel.fit: write guard not found")
+    tr = Tr(src, {"top_level": "top_level", "aggregate": "aggregate_nonempty", "self.save_conformalization": "save_conf"})
+    out.append(lean_def("gauss_write_guard", [("top_level", "Bool"), ("aggregate_nonempty", "Bool"), ("save_conf", "Bool")], "Bool",
+                        "  " + tr.expr(guards[0].test)))
+    # client: flags, guards and the position of the live-results write relative to the gate
+    src, tree = _parse("client.py")
+    fn = _find(tree, "ModelClient", "get_estimates")
+    tr = Tr(src, {})
+    default = _assigned_in(fn, "save_output", 0)
+    if not (isinstance(default, ast.Call) and ast.unparse(default.func) == "kwargs.get" and len(default.args) == 2):
+        raise TranslateError("save_output default")
+    dl = default.args[1]
+    if not isinstance(dl, ast.List):
+        raise TranslateError("save_output default is not a list")
+    out.append("def save_output_default : List String := [" + ", ".join(tr.expr(e) for e in dl.elts) + "]\n")
+    tr = Tr(src, {"save_output": "save_output"})
+    for name, target in (("flag_results", "self.save_results"), ("flag_data", "save_data"), ("flag_config", "save_config"),
+                         ("flag_conformalization", "save_conformalization")):
+        out.append(lean_def(name, [("save_output", "List String")], "Bool", "  " + tr.expr(_assigned_in(fn, target, 0))))
+    ifs = [n for n in fn.body if isinstance(n, ast.If)]
+    live = [n for n in ifs if "data.write_data" in ast.unparse(n)]
+    final = [n for n in ifs if "self.results_handler.write_data" in ast.unparse(n)]
+    gate = [n for n in ifs if "ModelNotEnoughSubunitsException" in ast.unparse(n)]
+    if len(live) != 1 or len(final) != 1 or len(gate) != 1:
+        raise TranslateError("get_estimates: write / gate statements not found at top level")
+    trg = Tr(src, {"APP_ENV != 'local'": "(!is_local)", "self.save_results": "save_results"})
+    for name, node in (("live_guard", live[0]), ("final_guard", final[0])):
+        out.append(lean_def(name, [("is_local", "Bool"), ("save_results", "Bool")], "Bool", "  " + trg.expr(node.test)))
+    out.append(f"def live_before_gate : Bool := {'true' if live[0].lineno < gate[0].lineno else 'false'}\n")
+    out.append(f"def final_after_gate : Bool := {'true' if final[0].lineno > gate[0].lineno else 'false'}\n")
+    return out
+
+
+GENERATORS = {"C06": gen_C06, "C07": gen_C07, "C14": gen_C14, "C18": gen_C18, "C20": gen_C20}
 
 HEADER = """import ElexModel.Core.Num
 /-! GENERATED by harness/extract.py from /repo/src on every check run. Do not edit. -/
